@@ -321,6 +321,9 @@ func checkE2E(c e2eCase) (nt bool, v *verdict) {
 			}
 			m.backup = !m.backup
 			px.P.OnSvcHostAdd([]*host.Host{mk(h, m.backup)})
+			if !up[h] {
+				lastFlip = time.Now() // the replacing object starts healthy: a host that is down must first be detected again
+			}
 			nt = true
 			// connections established to the replaced object may be closed by the proxy; forget them
 			var keep []*liveConn
